@@ -887,7 +887,10 @@ var (
 	c22Topics   = []string{"a", "a/b", "a", "a:b", "t_1", "é/日", "RET_a", "a/b/c", "$SYS/x", "b"}
 	c22Payloads = []string{"", "x", "hello", "{\"k\":1}", "é日", "\x00\x01"}
 	// lengths around the largest key bolt (32768 bytes) and badger (65000 bytes) accept, minus the type prefix
-	c22Pads = []int{32700, 32758, 32762, 32764, 32766, 32780, 64900, 64990, 64994, 64996, 64998, 65010, 65400}
+	// payload sizes whose stored JSON form lies below / above badger's 1 MiB value-log threshold; the thorough tier adds
+	// one beyond the 15%-of-memtable transaction budget (badger counts only a pointer for such values: it is stored)
+	c22PayPads = []int{70000, 800000, 1<<20 + 4096}
+	c22Pads    = []int{32700, 32758, 32762, 32764, 32766, 32780, 64900, 64990, 64994, 64996, 64998, 65010, 65400}
 )
 
 func c22GenUsers(rt *rapid.T, label string) [][2]string {
@@ -942,7 +945,7 @@ func c22GenMsg(rt *rapid.T, topic kstr, pid uint16, big bool) *c22Msg {
 		m.NilPayload = rapid.Bool().Draw(rt, "nilpayload")
 	}
 	if big && rapid.IntRange(0, 3).Draw(rt, "bigp") == 0 {
-		m.PayPad = rapid.SampledFrom([]int{70000, 1 << 20, 1<<20 + 4096, 8 << 20}).Draw(rt, "paypad")
+		m.PayPad = rapid.SampledFrom(c22PayPads).Draw(rt, "paypad")
 	}
 	m.Qos = byte(rapid.IntRange(0, 2).Draw(rt, "qos"))
 	m.Retain = rapid.Bool().Draw(rt, "retainflag")
@@ -969,7 +972,7 @@ func c22GenMsg(rt *rapid.T, topic kstr, pid uint16, big bool) *c22Msg {
 func c22Gen(rt *rapid.T) c22Case {
 	var c c22Case
 	long := rapid.IntRange(0, 24).Draw(rt, "longclass") == 0
-	big := rapid.IntRange(0, 39).Draw(rt, "bigclass") == 0
+	big := rapid.IntRange(0, 79).Draw(rt, "bigclass") == 0
 	reopen := rapid.IntRange(0, 11).Draw(rt, "reopenclass") == 0
 	// collision class: ids "a:b" and "a" with filters "c" and "b:c" share the subscription key "a:b:c"
 	coll := !long && rapid.IntRange(0, 5).Draw(rt, "collisionclass") == 0
@@ -1137,6 +1140,9 @@ func TestC22(t *testing.T) {
 	defer r.Finish(t)
 	r.Assume("miniredis (github.com/alicebob/miniredis/v2, the repository's own test dependency) stands in for a redis server")
 	r.Assume("2:2 splits cannot be attributed to a backend by a differential oracle; they are reported as split-<pair>_vs_<pair>")
+	if evid.Thorough() {
+		c22PayPads = append(c22PayPads, 8<<20)
+	}
 	evid.Run(t, r, func(rt *rapid.T) c22Case {
 		c := c22Gen(rt)
 		r.Sample(c22Brief(c))
